@@ -1,6 +1,6 @@
 (* Theorems about task factories (C09). *)
 From Coq Require Import List Bool Arith Lia.
-From Asphalt Require Import Conc.Factory Gen.Gen_service.
+From Asphalt Require Import Conc.Factory Gen.Gen_service Gen.Gen_taskfactory.
 Import ListNotations.
 
 Lemma upd_length {A} (l : list A) i x : length (upd l i x) = length l.
@@ -261,3 +261,14 @@ Theorem background_task_source_shape :
   bg_handler_consulted_iff_given = true /\ bg_swallowed_iff_truthy = true /\
   bg_finished_in_finally_after_context = true.
 Proof. repeat split. Qed.
+
+Theorem task_factory_source_shape :
+  tf_is_a_service_task_of_the_owner = true /\ tf_teardown_only_sets_an_event = true /\
+  tf_context_is_the_service_tasks = true /\ tf_handle_added_before_spawn = true /\
+  tf_start_task_discards_on_failure = true /\ tf_start_task_soon_discards_on_failure = true /\
+  tf_handle_removed_in_finally = true /\ tf_all_task_handles_is_a_copy = true.
+Proof. repeat split. Qed.
+
+(* a spawn that fails leaves the state exactly as it was (computed from the two spawn methods as read) *)
+Theorem failed_spawn_leaves_nothing : forall s b, failed_spawn s b = (s, [SpawnFailed]).
+Proof. reflexivity. Qed.
